@@ -41,7 +41,10 @@ def restrictions(m: Msg, aval: Dict[str, Any]) -> List[Dict[str, Any]]:
                     out.append({k: [x]})
             return out
         if f.card == "map" and len(v) > 1:
-            return [{k: {kk: x}} for kk, x in v.items()]
+            items = list(v.items())
+            if len(items) > 8:  # large maps: first, second and last entry are tried as explanations
+                items = items[:2] + items[-1:]
+            return [{k: {kk: x}} for kk, x in items]
     return []
 
 
